@@ -43,8 +43,44 @@ impl RStats {
 const SENTINEL: u8 = 0xEE;
 
 struct Buf {
+    /// allocation; the operation uses `data[skew..skew + n]` (skew > 0 only
+    /// for O_DIRECT operations, whose buffer must be aligned)
     data: Vec<u8>,
+    skew: usize,
+    n: usize,
     is_read: bool,
+}
+
+impl Buf {
+    fn new(content: Vec<u8>, is_read: bool, align: Option<u64>) -> Buf {
+        let n = content.len();
+        match align {
+            None => Buf {
+                data: content,
+                skew: 0,
+                n,
+                is_read,
+            },
+            Some(a) => {
+                let mut data = vec![SENTINEL; n + a as usize];
+                let addr = data.as_ptr() as usize;
+                let skew = (a as usize - addr % a as usize) % a as usize;
+                data[skew..skew + n].copy_from_slice(&content);
+                Buf {
+                    data,
+                    skew,
+                    n,
+                    is_read,
+                }
+            }
+        }
+    }
+    fn region(&self) -> &[u8] {
+        &self.data[self.skew..self.skew + self.n]
+    }
+    fn ptr(&mut self) -> *mut u8 {
+        self.data[self.skew..].as_mut_ptr()
+    }
 }
 
 fn flag_of(f: u8) -> squeue::Flags {
@@ -146,6 +182,29 @@ pub fn run_direct(s: &Script, st: &mut RStats, san: bool) -> Option<Complaint> {
         });
         m.fs.absorb();
     }
+    // second, O_DIRECT handle per file (same file, opened twice)
+    let mut dfiles: Vec<Option<sfs::File>> = vec![];
+    let mut direct_fd: Vec<i32> = vec![-1; s.nfiles];
+    let open_direct = |p: &str| {
+        sfs::OpenOptions::new()
+            .read(true)
+            .write(true)
+            .direct_io(true)
+            .open(p)
+    };
+    if s.cfg.dio_align.is_some() {
+        st.inc("direct_io_scripts");
+        for i in 0..s.nfiles {
+            match real.entered(|| open_direct(&file_path(i))) {
+                Ok(f) => {
+                    direct_fd[i] = f.as_raw_fd();
+                    dfiles.push(Some(f));
+                    m.open_direct(i);
+                }
+                Err(e) => return fail("setup", 0, format!("O_DIRECT open failed: {e}")),
+            }
+        }
+    }
     // Twin (capacity configurations): a second file system in the same
     // configuration to which every effect is applied through the synchronous
     // std shim at the moment the ring yields it. The ring result must equal
@@ -232,26 +291,28 @@ pub fn run_direct(s: &Script, st: &mut RStats, san: bool) -> Option<Complaint> {
                 if *ring >= rings.len() {
                     continue;
                 }
-                let fd_of = |file: usize| types::Fd(last_fd[file.min(last_fd.len() - 1)]);
+                let direct = is_direct(*flag) && s.cfg.dio_align.is_some();
+                let fd_of = |file: usize| {
+                    let i = file.min(last_fd.len() - 1);
+                    types::Fd(if direct { direct_fd[i] } else { last_fd[i] })
+                };
+                let align = if direct { s.cfg.dio_align } else { None };
+                if direct {
+                    st.inc("sqe:direct");
+                }
                 let mut newbuf: Option<Buf> = None;
                 let sqe = match kind {
                     SqKind::Read { file, off, n } => {
-                        let mut b = Buf {
-                            data: vec![SENTINEL; *n as usize],
-                            is_read: true,
-                        };
-                        let e = opcode::Read::new(fd_of(*file), b.data.as_mut_ptr(), *n)
+                        let mut b = Buf::new(vec![SENTINEL; *n as usize], true, align);
+                        let e = opcode::Read::new(fd_of(*file), b.ptr(), *n)
                             .offset(*off)
                             .build();
                         newbuf = Some(b);
                         e
                     }
                     SqKind::Write { file, off, n, key } => {
-                        let b = Buf {
-                            data: payload(*key, *n),
-                            is_read: false,
-                        };
-                        let e = opcode::Write::new(fd_of(*file), b.data.as_ptr(), *n)
+                        let mut b = Buf::new(payload(*key, *n), false, align);
+                        let e = opcode::Write::new(fd_of(*file), b.ptr() as *const u8, *n)
                             .offset(*off)
                             .build();
                         newbuf = Some(b);
@@ -261,14 +322,14 @@ pub fn run_direct(s: &Script, st: &mut RStats, san: bool) -> Option<Complaint> {
                     SqKind::Cancel { target } => opcode::AsyncCancel::new(*target).build(),
                 }
                 .user_data(*ud)
-                .flags(flag_of(*flag));
+                .flags(flag_of(sqe_flag(*flag)));
                 match kind {
                     SqKind::Read { .. } => st.inc("sqe:read"),
                     SqKind::Write { .. } => st.inc("sqe:write"),
                     SqKind::Fsync { .. } => st.inc("sqe:fsync"),
                     SqKind::Cancel { .. } => st.inc("sqe:cancel"),
                 }
-                if *flag >= 2 {
+                if sqe_flag(*flag) >= 2 {
                     st.inc("sqe:unsupported_flag");
                 }
                 let exp = m.push(*ring, *ud, kind, *flag);
@@ -437,6 +498,7 @@ pub fn run_direct(s: &Script, st: &mut RStats, san: bool) -> Option<Complaint> {
                             && inf.fixed.is_none()
                             && inf.e.fd_gen.is_some()
                             && !closed_ebadf
+                            && !exp.misaligned_direct
                         {
                             let sync_res =
                                 sync_api_write(t, &file_path(*file), *off, &payload(*key, *n));
@@ -474,6 +536,9 @@ pub fn run_direct(s: &Script, st: &mut RStats, san: bool) -> Option<Complaint> {
                     if exp.undetermined_closed {
                         st.inc("undetermined_close_before_completion");
                     }
+                    if exp.misaligned_direct && res == EINVAL {
+                        st.inc("cqe:direct_misaligned_einval");
+                    }
                     match res {
                         EBADF => st.inc("cqe:ebadf"),
                         EINVAL => st.inc("cqe:einval"),
@@ -489,15 +554,20 @@ pub fn run_direct(s: &Script, st: &mut RStats, san: bool) -> Option<Complaint> {
                                 let b = bufs.get(&ud).expect("read buffer");
                                 let want_data = exp.data.clone().unwrap_or_default();
                                 let k = res as usize;
-                                if b.data[..k] != want_data[..]
-                                    || b.data[k..].iter().any(|x| *x != SENTINEL)
+                                if is_direct(inf.e.flag) {
+                                    st.inc("cqe:direct_read_ok");
+                                }
+                                if b.region()[..k] != want_data[..]
+                                    || b.region()[k..].iter().any(|x| *x != SENTINEL)
+                                    || b.data[..b.skew].iter().any(|x| *x != SENTINEL)
+                                    || b.data[b.skew + b.n..].iter().any(|x| *x != SENTINEL)
                                 {
                                     result = fail(
                                         "read-data",
                                         ai,
                                         format!(
                                             "ud {ud} read({n}) returned {res}: buffer {:?}, expected {:?} then sentinel",
-                                            Obs::File(b.data.clone()).short(),
+                                            Obs::File(b.region().to_vec()).short(),
                                             Obs::File(want_data).short()
                                         ),
                                     );
@@ -676,7 +746,7 @@ pub fn run_direct(s: &Script, st: &mut RStats, san: bool) -> Option<Complaint> {
                 }
                 st.inc("crash_image_checks");
                 // bounce: old handles are gone, old rings are kept as zombies
-                for f in files.iter_mut() {
+                for f in files.iter_mut().chain(dfiles.iter_mut()) {
                     let old = f.take();
                     real.entered(|| drop(old));
                 }
@@ -689,6 +759,11 @@ pub fn run_direct(s: &Script, st: &mut RStats, san: bool) -> Option<Complaint> {
                         let f = open_rw(&file_path(i))?;
                         last_fd[i] = f.as_raw_fd();
                         files[i] = Some(f);
+                        if s.cfg.dio_align.is_some() {
+                            let d = open_direct(&file_path(i))?;
+                            direct_fd[i] = d.as_raw_fd();
+                            dfiles[i] = Some(d);
+                        }
                     }
                     Ok(())
                 });
@@ -698,6 +773,9 @@ pub fn run_direct(s: &Script, st: &mut RStats, san: bool) -> Option<Complaint> {
                 }
                 for i in 0..s.nfiles {
                     m.open_file(i);
+                    if s.cfg.dio_align.is_some() {
+                        m.open_direct(i);
+                    }
                 }
                 m.now += 1_000_000;
                 sync_clock(&mut real, &m);
@@ -775,6 +853,7 @@ pub fn run_direct(s: &Script, st: &mut RStats, san: bool) -> Option<Complaint> {
         drop(rings);
         drop(zombies);
         drop(files);
+        drop(dfiles);
     });
     let _ = bufs.values().map(|b| b.is_read).count();
     drop(bufs);
@@ -1035,6 +1114,9 @@ pub fn run(ctx: &Ctx) -> ! {
             "inflight_at_crash",
             "crash_image_checks",
             "retired_buffers_checked",
+            "direct_io_scripts",
+            "cqe:direct_read_ok",
+            "cqe:direct_misaligned_einval",
             "capacity_scripts",
             "twin_write_checks",
             "cqe:enospc",
